@@ -976,6 +976,10 @@ def call_method(interp, st, fr, obj, name, args, kw):
                 pass
             if name == 'format':
                 return Opaque('format', (obj, tuple(args)))     # the template and its arguments are kept
+            if name == 'join' and args:
+                seq = interp.concrete_iter(args[0], st)
+                if seq is not None:
+                    return Opaque('str', ('join', obj, tuple(seq)))     # the pieces are kept, in order
             return Opaque('str')
         raise Unsupported("str.%s" % name)
     if isinstance(obj, ObjRef) and st.heap[obj.addr].cls == '<table>':
@@ -1142,7 +1146,12 @@ def table_new(st, cols, nrows, origin=None, root=None):
     names = tuple(cols)
     dt = st.alloc_obj('<dtype>', {'names': names})
     return st.alloc_obj('<table>', {'@cols': cols, '@n': nrows, '@origin': origin or (lambda k: k), '@root': root,
-                                    'columns': names, 'colnames': names, 'dtype': dt})
+                                    'columns': _columns_view(st, names), 'colnames': names, 'dtype': dt})
+
+
+def _columns_view(st, names):
+    """Table.columns: an ordered mapping name -> column (iteration, `in`, .keys() give the names)."""
+    return st.alloc_dict(dict((nm, Opaque('column', nm)) for nm in names))
 
 
 def is_table(st, v):
@@ -1156,6 +1165,15 @@ def table_getitem(interp, st, t, key):
         if key not in cols:
             raise Raised('KeyError', key)
         return cols[key]
+    if isinstance(key, (int, Sc)) and not isinstance(key, bool):
+        # one row: a record giving, for every column, the entry at that row
+        i = npm.norm_index(st, key, n)
+        row = {}
+        for name, col in cols.items():
+            inner = col.value if isinstance(col, Quantity) else col
+            v = npm.getitem(st, inner, i) if True else None
+            row[name] = Quantity(v, col.unit) if isinstance(col, Quantity) else v
+        return st.alloc_obj('<row>', {'[]': row, '@index': i, '@table': t})
     if not is_array(key):
         raise Unsupported("table subscript %r" % (key,))
     kshape, kfn, kind = npm.info(st, key)
@@ -1218,7 +1236,8 @@ def table_setitem(interp, st, t, key, val):
     attrs = dict(cell.attrs)
     attrs['@cols'] = cols
     attrs['@n'] = n
-    attrs['columns'] = attrs['colnames'] = tuple(cols)
+    attrs['colnames'] = tuple(cols)
+    attrs['columns'] = _columns_view(st, tuple(cols))
     attrs['dtype'] = st.alloc_obj('<dtype>', {'names': tuple(cols)})
     st.heap[t.addr] = ObjCell('<table>', attrs)
 
